@@ -29,3 +29,35 @@ fn s4_pv_decode_list_alloc_bounded() {
     let r = super::PropertyValue::decode(&bytes);
     std::mem::forget(r);
 }
+
+#[kani::proof]
+#[kani::unwind(24)]
+fn s4b_pv_roundtrip_list2() {
+    let v = super::PropertyValue::List(vec![super::PropertyValue::Int(kani::any()), super::PropertyValue::Bool(kani::any())]);
+    let b = v.encode();
+    let d = super::PropertyValue::decode(&b);
+    let ok = match &d { Ok(x) => *x == v, Err(_) => false };
+    std::mem::forget((v, b, d));
+    assert!(ok);
+}
+#[kani::proof]
+#[kani::unwind(12)]
+fn s4b_pv_roundtrip_float_bits() {
+    let f: f64 = kani::any();
+    let v = super::PropertyValue::Float(f);
+    let b = v.encode();
+    let d = super::PropertyValue::decode(&b);
+    let ok = match &d { Ok(super::PropertyValue::Float(g)) => g.to_bits() == f.to_bits(), _ => false };
+    std::mem::forget((v, b, d));
+    assert!(ok);
+}
+
+macro_rules! dec_tag { ($name:ident, $tag:expr, $n:expr) => {
+    #[kani::proof]
+    #[kani::unwind(12)]
+    fn $name() { let mut b: [u8; $n] = kani::any(); b[0] = $tag; let r = super::PropertyValue::decode(&b); std::mem::forget(r); }
+} }
+dec_tag!(s4c_dec_tag4_len7, 4, 7);
+dec_tag!(s4c_dec_tag8_len10, 8, 10);
+dec_tag!(s4c_dec_tag6_len6, 6, 6);
+dec_tag!(s4c_dec_tag2_len9, 2, 9);
